@@ -27,6 +27,97 @@ SCOPE = 'usim._primitives.context.Scope'
 QUEUE = 'usim._basics.streams.Queue'
 
 
+def _queue_locals(path, index):
+    """locals whose reaching definition is a fresh ``Queue()``"""
+    names = set()
+    for event in path.events[:index]:
+        if event.kind == 'store' and event.depth == 0 and \
+                isinstance(event.data.get('value'), ast.Call) and \
+                ast.unparse(event['value'].func) == 'Queue':
+            names.add(event['path'])
+    return tuple(sorted(names))
+
+
+def _queue_name(do_node, path, index, qparam):
+    """the local queue handed to the monitor spawned at ``do_node``"""
+    payload = rules.value_expr(path, index, do_node.args[0], keep=_queue_locals(path, index))
+    if isinstance(payload, ast.Call):
+        for kw in payload.keywords:
+            if kw.arg == qparam:
+                return kw.value
+        if len(payload.args) > 1:
+            return payload.args[1]
+    return ast.Name(id='?', ctx=ast.Load())
+
+
+def _contains(outer, inner) -> bool:
+    return any(sub is inner for sub in ast.walk(outer))
+
+
+def _scope_withs(an, fn):
+    """`async with <Scope instance> as name` statements of fn"""
+    from ..types import Frame
+    frame = Frame(fn, None, fn.module)
+    result = []
+    for node in ast.walk(fn.node):
+        if isinstance(node, ast.AsyncWith) and len(node.items) == 1:
+            ts = an.te.expr_type(node.items[0].context_expr, frame)
+            if ts == an.te.inst(SCOPE) and isinstance(node.items[0].optional_vars, ast.Name):
+                result.append(node)
+    return result
+
+
+def _is_false(expr) -> bool:
+    return isinstance(expr, ast.Constant) and expr.value is False
+
+
+def asserted(test, value):
+    """the inequality known to hold once ``test`` evaluated to ``value``"""
+    from .c19 import inequality
+    found = inequality(test)
+    if found is None:
+        return None
+    strict, diff = found
+    if value:
+        return strict, diff
+    return (not strict), tuple(sorted((k, -v) for k, v in diff))
+
+
+def _param_is_none(path, index, name):
+    """outcome of the last `name is None` test on the *parameter* before ``index``"""
+    for pos in range(index - 1, -1, -1):
+        event = path.events[pos]
+        if event.kind != 'test' or event.depth != 0:
+            continue
+        node = event.node
+        if isinstance(node, ast.Compare) and len(node.ops) == 1 and \
+                isinstance(node.left, ast.Name) and node.left.id == name and \
+                isinstance(node.comparators[0], ast.Constant) and \
+                node.comparators[0].value is None and \
+                rules.reaching_store(path, pos, name) is None:
+            if isinstance(node.ops[0], ast.Is):
+                return bool(event['value'])
+            if isinstance(node.ops[0], ast.IsNot):
+                return not event['value']
+    return None
+
+
+def _limit_cases(path, index, expr, param):
+    """[(param is None?, limit text)] for the effective count at ``index``"""
+    value = rules.value_expr(path, index, expr)
+    if isinstance(value, ast.IfExp):
+        test = value.test
+        if isinstance(test, ast.Compare) and len(test.ops) == 1 and \
+                ast.unparse(test.left) == param and \
+                ast.unparse(test.comparators[0]) == 'None' and \
+                isinstance(test.ops[0], (ast.Is, ast.IsNot)):
+            none_first = isinstance(test.ops[0], ast.Is)
+            return [(none_first, ast.unparse(value.body)),
+                    (not none_first, ast.unparse(value.orelse))]
+        return [(None, ast.unparse(value))]
+    return [(_param_is_none(path, index, param), ast.unparse(value))]
+
+
 def run(check, an: Analysis):
     check.rule('collect', 'in-order spawn of every activity as a regular child; results '
                           'awaited in the same order after the scope')
@@ -38,111 +129,222 @@ def run(check, an: Analysis):
     monitor = an.fn(MOD + '._first_monitor')
 
     # ---- collect ---------------------------------------------------------------
-    withs = [n for n in collect.node.body if isinstance(n, ast.AsyncWith)]
+    withs = _scope_withs(an, collect)
     acts = collect.node.args.vararg.arg if collect.node.args.vararg else None
-    ok_scope = len(withs) == 1 and ast.unparse(withs[0].items[0].context_expr) == 'Scope()' \
-        and withs[0].items[0].optional_vars is not None
-    scope_name = ast.unparse(withs[0].items[0].optional_vars) if ok_scope else '?'
-    spawn_ok, tasks_name = False, None
-    if ok_scope and len(withs[0].body) == 1 and isinstance(withs[0].body[0], ast.Assign) \
-            and isinstance(withs[0].body[0].value, ast.ListComp):
-        comp = withs[0].body[0].value
-        gen = comp.generators[0]
-        spawn_ok = len(comp.generators) == 1 and not gen.ifs and \
-            ast.unparse(gen.iter) == acts and \
-            ast.unparse(comp.elt) == '%s.do(%s)' % (scope_name, ast.unparse(gen.target))
-        tasks_name = ast.unparse(withs[0].body[0].targets[0])
+    maps = rules.sequence_maps(collect.node)
+    ok_scope = len(withs) == 1 and withs[0] in collect.node.body
+    scope_name = withs[0].items[0].optional_vars.id if ok_scope else '?'
+    spawn = [m for m in maps.values() if ast.unparse(m.src) == acts] if acts else []
+    spawn_ok = False
+    if ok_scope and len(spawn) == 1:
+        m = spawn[0]
+        elt = m.elt
+        spawn_ok = all(_contains(withs[0], st) for st in m.stmts) and \
+            isinstance(elt, ast.Call) and \
+            ast.unparse(elt.func) == '%s.do' % scope_name and \
+            [ast.unparse(a) for a in elt.args] == [m.var] and \
+            all(kw.arg == 'volatile' and _is_false(kw.value) for kw in elt.keywords)
     check.instance('collect', 'collect:spawns-all-in-order', ok_scope and spawn_ok,
-                   where_fn(collect), 'inside `async with Scope() as s`: '
-                   '[s.do(a) for a in activities] (no filter, not volatile)')
-    returns = [n for n in collect.node.body if isinstance(n, ast.Return)]
+                   where_fn(collect), 'inside `async with Scope() as s`: the task list is '
+                   '[s.do(a) for a in activities] (no filter, not volatile): %s' % (
+                       spawn or sorted(maps)))
     res_ok = False
-    if len(returns) == 1 and isinstance(returns[0].value, ast.ListComp) and tasks_name:
-        comp = returns[0].value
-        gen = comp.generators[0]
-        res_ok = len(comp.generators) == 1 and not gen.ifs and \
-            ast.unparse(gen.iter) == tasks_name and isinstance(comp.elt, ast.Await) and \
-            ast.unparse(comp.elt.value) == ast.unparse(gen.target)
-        # the return statement follows the scope block
-        res_ok = res_ok and collect.node.body.index(returns[0]) > \
-            collect.node.body.index(withs[0])
+    returns = [n for n in ast.walk(collect.node) if isinstance(n, ast.Return)]
+    if spawn_ok and len(returns) == 1 and returns[0] in collect.node.body:
+        if isinstance(returns[0].value, ast.Name):
+            m2 = maps.get(returns[0].value.id)
+        else:
+            m2 = maps.get('<return>')
+        res_ok = m2 is not None and ast.unparse(m2.src) == spawn[0].name and \
+            isinstance(m2.elt, ast.Await) and ast.unparse(m2.elt.value) == m2.var and \
+            all(st in collect.node.body and collect.node.body.index(st) >
+                collect.node.body.index(withs[0]) for st in m2.stmts + [returns[0]])
     check.instance('collect', 'collect:results-in-order', res_ok, where_fn(collect),
-                   'after the scope: [await task for task in tasks]')
+                   'after the scope: [await task for task in tasks] is returned')
     ccallee = Callee(collect, None)
     cpaths = an.paths(ccallee)
-    spawned = [e for p in cpaths for e in p.events if is_call_to(e, 'do')]
-    volatile = any(any(kw.arg == 'volatile' for kw in e.node.keywords) for e in spawned)
-    check.instance('collect', 'collect:regular-children', bool(spawned) and not volatile,
-                   where_fn(collect), 'children are not volatile: the scope waits for them')
+    spawned = [e for p in cpaths for e in p.events if is_call_to(e, 'do') and e.depth == 0]
+    volatile = any(any(kw.arg == 'volatile' and not _is_false(kw.value)
+                       for kw in e.node.keywords) for e in spawned)
+    sites = {id(e.node) for e in spawned}
+    check.instance('collect', 'collect:regular-children',
+                   len(sites) == 1 and not volatile, where_fn(collect),
+                   'one spawn site; children are not volatile: the scope waits for them')
     # ---- first -------------------------------------------------------------------
-    body = first.node.body
-    withs = [n for n in body if isinstance(n, ast.AsyncWith)]
-    raises = [n for n in ast.walk(first.node) if isinstance(n, ast.Raise)]
-    acts = first.node.args.vararg.arg if first.node.args.vararg else None
-    ok = len(withs) == 1 and len(raises) == 1 and \
-        ast.unparse(raises[0].exc.func) == 'ValueError' and \
-        not any(raises[0] is sub for sub in ast.walk(withs[0]))
-    guard_ok = False
-    for node in body:
-        if isinstance(node, ast.If) and any(r is raises[0] for r in ast.walk(node)) \
-                if raises else False:
-            test = node.test
-            guard_ok = isinstance(test, ast.Compare) and isinstance(test.ops[0], ast.Gt) and \
-                ast.unparse(test.left) == 'count' and \
-                ast.unparse(test.comparators[0]) == 'len(%s)' % acts and \
-                body.index(node) < body.index(withs[0])
-    check.instance('first', 'first:count-checked-before-scope', ok and guard_ok,
-                   where_fn(first), '`count > len(activities)` raises ValueError before the '
-                   'scope is entered')
-    defaults = [n for n in body if isinstance(n, ast.Assign)
-                and ast.unparse(n.targets[0]) == 'count']
-    ok = len(defaults) == 1 and isinstance(defaults[0].value, ast.IfExp) and \
-        ast.unparse(defaults[0].value.test) == 'count is not None' and \
-        ast.unparse(defaults[0].value.orelse) == 'len(%s)' % acts
-    check.instance('first', 'first:count-None-means-all', ok, where_fn(first),
-                   'count=None yields every result')
     fcallee = Callee(first, None)
     fpaths = an.paths(fcallee)
-    dos = {}
+    acts = first.node.args.vararg.arg if first.node.args.vararg else None
+    kwonly = [a.arg for a in first.node.args.kwonlyargs] + \
+        [a.arg for a in first.node.args.args]
+    param = kwonly[0] if kwonly else None
+    withs = _scope_withs(an, first)
+    want_len = 'len(%s)' % acts
+    guard_ok, guard_n, guard_bad = True, 0, None
+    none_ok, none_n, none_bad = True, 0, None
+    raise_ok, raise_n = True, 0
+    slice_ok, slice_n, slice_bad = True, 0, None
     for path in fpaths:
-        for event in path.events:
-            if is_call_to(event, 'do') and event.depth == 0:
-                dos[id(event.node)] = event.node
-    vol_ok = bool(dos) and all(
-        any(kw.arg == 'volatile' and isinstance(kw.value, ast.Constant)
-            and kw.value.value is True for kw in node.keywords) for node in dos.values())
-    mon_ok = bool(dos) and all(
-        node.args and isinstance(node.args[0], ast.Call)
-        and ast.unparse(node.args[0].func) == '_first_monitor' for node in dos.values())
-    loops = [n for n in ast.walk(first.node) if isinstance(n, ast.For)]
-    loop_ok = len(loops) == 1 and ast.unparse(loops[0].iter) == acts and \
-        not any(isinstance(n, (ast.Break, ast.Continue, ast.If)) for n in ast.walk(loops[0]))
-    check.instance('first', 'first:volatile-monitors', vol_ok and mon_ok and loop_ok,
+        events = path.events
+        entered = [i for i, e in enumerate(events) if e.kind == 'susp' and e.depth == 0
+                   and e['how'] == 'aenter' and withs and e.node is withs[0]]
+        if path.kind == 'raise' and path.outcome[1].cls == 'ext:ValueError' and \
+                not entered:
+            raise_n += 1
+        if not entered:
+            continue
+        at = entered[0]
+        limit = rules.value_text(path, at, ast.Name(id=param, ctx=ast.Load()))
+        want = asserted(ast.parse('(%s) > %s' % (limit, want_len), mode='eval').body, False)
+        guard_n += 1
+        have = [e for i, e in enumerate(events[:at]) if e.kind == 'test' and e.depth == 0
+                and asserted(rules.value_expr(path, i, e.node), e['value']) == want]
+        if not have:
+            guard_ok = False
+            guard_bad = guard_bad or (path, at)
+        for index, event in enumerate(events):
+            if event.kind == 'call' and event.depth == 0 and isinstance(event.node, ast.Call) \
+                    and ast.unparse(event.node.func).split('.')[-1] == 'islice':
+                slice_n += 1
+                args = event.node.args
+                queue = rules.value_expr(path, index, args[0]) if args else None
+                if len(args) != 2 or not (isinstance(queue, ast.Call) and not queue.args
+                                          and ast.unparse(queue.func) == 'Queue'):
+                    slice_ok = False
+                    slice_bad = slice_bad or (path, index)
+                    continue
+                for isnone, text in _limit_cases(path, index, args[1], param):
+                    none_n += 1
+                    if isnone is True:
+                        good = text == want_len
+                    elif isnone is False:
+                        good = text == param
+                    else:
+                        good = False
+                    if not good:
+                        none_ok = False
+                        none_bad = none_bad or (path, index)
+    check.instance('first', 'first:count-checked-before-scope',
+                   guard_ok and guard_n > 0 and raise_n > 0, where_fn(first),
+                   '`count > len(activities)` raises ValueError before the scope is entered '
+                   '(%d entering paths, %d raising paths)' % (guard_n, raise_n),
+                   path=rules.path_lines(*guard_bad) if guard_bad else None,
+                   analysed=guard_n)
+    check.instance('first', 'first:count-None-means-all', none_ok and none_n > 0,
+                   where_fn(first), 'the slice length is len(activities) for count=None, '
+                   'count otherwise (%d cases on paths)' % none_n,
+                   path=rules.path_lines(*none_bad) if none_bad else None, analysed=none_n)
+    # monitors: every iteration over the activities spawns exactly one volatile monitor
+    vol_ok, mon_ok, loop_ok, n_do, bad_do = True, True, True, 0, None
+    queues = set()
+    for path in fpaths:
+        events = path.events
+        seg_do = None
+        for index, event in enumerate(events):
+            if event.depth != 0:
+                continue
+            if event.kind in ('iter-next', 'iter-end') and isinstance(event.node, ast.For):
+                if seg_do is not None and seg_do != 1:
+                    loop_ok = False
+                    bad_do = bad_do or (path, index)
+                seg_do = 0 if event.kind == 'iter-next' else None
+                if event.kind == 'iter-next' and \
+                        rules.value_text(path, index, event.node.iter) != acts:
+                    loop_ok = False
+                    bad_do = bad_do or (path, index)
+            elif event.kind == 'test' and seg_do is not None:
+                loop_ok = False  # a filter inside the spawn loop
+                bad_do = bad_do or (path, index)
+            elif is_call_to(event, 'do') and event.kind in ('call', 'enter'):
+                n_do += 1
+                if seg_do is None:
+                    loop_ok = False
+                    bad_do = bad_do or (path, index)
+                else:
+                    seg_do += 1
+                node = event.node
+                if not any(kw.arg == 'volatile' and isinstance(kw.value, ast.Constant)
+                           and kw.value.value is True for kw in node.keywords):
+                    vol_ok = False
+                    bad_do = bad_do or (path, index)
+                payload = rules.value_expr(path, index, node.args[0]) if node.args else None
+                good = isinstance(payload, ast.Call) and \
+                    ast.unparse(payload.func).split('.')[-1] == monitor.name
+                if good:
+                    mparams = [a.arg for a in monitor.node.args.args]
+                    bound = dict(zip(mparams, payload.args))
+                    bound.update({kw.arg: kw.value for kw in payload.keywords})
+                    contestant = bound.get(mparams[0])
+                    queue = bound.get(mparams[1])
+                    loops = [e for e in events[:index] if e.kind == 'iter-next'
+                             and e.depth == 0]
+                    good = contestant is not None and queue is not None and loops and \
+                        ast.unparse(contestant) == ast.unparse(loops[-1].node.target) and \
+                        isinstance(queue, ast.Call) and ast.unparse(queue.func) == 'Queue'
+                    if good:
+                        queues.add(ast.unparse(_queue_name(node, path, index, mparams[1])))
+                if not good:
+                    mon_ok = False
+                    bad_do = bad_do or (path, index)
+    check.instance('first', 'first:volatile-monitors',
+                   vol_ok and mon_ok and loop_ok and n_do > 0,
                    where_fn(first), 'one volatile _first_monitor child per activity, in '
-                   'order (volatile=%s monitor=%s loop=%s)' % (vol_ok, mon_ok, loop_ok))
-    queues = [n for n in body if isinstance(n, (ast.Assign, ast.AnnAssign))
-              and isinstance(n.value, ast.Call) and ast.unparse(n.value.func) == 'Queue']
-    afors = [n for n in ast.walk(first.node) if isinstance(n, ast.AsyncFor)]
-    qname = ast.unparse(queues[0].target if isinstance(queues[0], ast.AnnAssign)
-                        else queues[0].targets[0]) if queues else '?'
-    ok = len(queues) == 1 and len(afors) == 1 and isinstance(afors[0].iter, ast.Call) and \
-        ast.unparse(afors[0].iter.func).split('.')[-1] == 'islice' and \
-        [ast.unparse(a) for a in afors[0].iter.args] == [qname, 'count']
-    monitor_queue = all(any(kw.arg == 'queue' and ast.unparse(kw.value) == qname
-                            for kw in node.args[0].keywords) or
-                        (len(node.args[0].args) > 1 and
-                         ast.unparse(node.args[0].args[1]) == qname)
-                        for node in dos.values()) if mon_ok else False
-    check.instance('first', 'first:fifo-results-sliced', ok and monitor_queue,
-                   where_fn(first), 'winners are read from the one queue all monitors put '
-                   'into, through islice(%s, count)' % qname)
-    ok = len(afors) == 1 and len(afors[0].body) == 1 and \
-        isinstance(afors[0].body[0], ast.Expr) and \
-        isinstance(afors[0].body[0].value, ast.Yield) and \
-        ast.unparse(afors[0].body[0].value.value) == ast.unparse(afors[0].target) and \
-        len(withs) == 1 and any(sub is afors[0] for sub in ast.walk(withs[0]))
-    check.instance('first', 'first:yield-inside-scope', ok, where_fn(first),
-                   'each winner is yielded unchanged, inside the scope block')
+                   'order (volatile=%s monitor=%s loop=%s; %d spawns on paths)' % (
+                       vol_ok, mon_ok, loop_ok, n_do),
+                   path=rules.path_lines(*bad_do) if bad_do else None, analysed=n_do)
+    # the queue read is the queue written
+    read = set()
+    afor_ok, afor_n = True, 0
+    for path in fpaths:
+        for index, event in enumerate(path.events):
+            if event.kind == 'susp' and event.depth == 0 and event['how'] == 'anext':
+                afor_n += 1
+                source = rules.value_expr(path, index, event.node.iter)
+                if isinstance(source, ast.Call) and \
+                        ast.unparse(source.func).split('.')[-1] == 'islice' and source.args:
+                    # which local holds the queue
+                    raw = rules.value_expr(path, index, event.node.iter, keep=_queue_locals(
+                        path, index))
+                    read.add(ast.unparse(raw.args[0]) if isinstance(raw, ast.Call)
+                             and raw.args else '?')
+                else:
+                    afor_ok = False
+    check.instance('first', 'first:fifo-results-sliced',
+                   slice_ok and slice_n > 0 and afor_ok and afor_n > 0
+                   and len(read) == 1 and read == queues, where_fn(first),
+                   'winners are read from the one Queue() all monitors put into, through '
+                   'islice(queue, count) (read %s, written %s)' % (sorted(read),
+                                                                  sorted(queues)),
+                   path=rules.path_lines(*slice_bad) if slice_bad else None,
+                   analysed=slice_n)
+    # yields: the loop variable of the sliced iteration, inside the scope block
+    y_ok, y_n, y_bad = True, 0, None
+    for path in fpaths:
+        events = path.events
+        inside = False
+        last_next = None
+        for index, event in enumerate(events):
+            if event.depth != 0:
+                continue
+            if event.kind == 'susp' and withs and event.node is withs[0]:
+                inside = event['how'] == 'aenter' and event['exit'] == 'normal'
+            elif event.kind == 'susp' and event['how'] == 'anext':
+                last_next = event
+            elif event.kind == 'yield':
+                y_n += 1
+                value = event.node.value
+                good = inside and last_next is not None and value is not None and \
+                    rules.value_text(path, index, value) == \
+                    ast.unparse(last_next.node.target) and \
+                    rules.reaching_store(path, index, ast.unparse(value)) is not None and \
+                    rules.reaching_store(path, index, ast.unparse(value))[0] > \
+                    events.index(last_next)
+                if not good:
+                    y_ok = False
+                    y_bad = y_bad or (path, index)
+    check.instance('first', 'first:yield-inside-scope', y_ok and y_n > 0, where_fn(first),
+                   'each winner is yielded unchanged, inside the scope block '
+                   '(%d yields on paths)' % y_n,
+                   path=rules.path_lines(*y_bad) if y_bad else None, analysed=y_n)
     # closing the generator at the yield closes the scope synchronously
     closed = [p for p in fpaths if any(e.kind == 'yield' and e['exit'] == GENEXIT
                                        for e in p.events)]
@@ -157,14 +359,22 @@ def run(check, an: Analysis):
                    'suspending (%d paths)' % len(closed), analysed=len(closed))
     # the monitor
     mparams = [a.arg for a in monitor.node.args.args]
-    mbody = monitor.node.body
-    ok = len(mbody) == 2 and isinstance(mbody[0], ast.Assign) and \
-        isinstance(mbody[0].value, ast.Await) and \
-        ast.unparse(mbody[0].value.value) == mparams[0] and \
-        ast.unparse(mbody[1]) == 'await %s.put(%s)' % (mparams[1],
-                                                      ast.unparse(mbody[0].targets[0]))
-    check.instance('first', '_first_monitor', ok, where_fn(monitor),
-                   'awaits the contestant and puts exactly its result')
+    mpaths = an.paths(Callee(monitor, None))
+    ok, n_put = True, 0
+    for path in mpaths:
+        puts = [(i, e) for i, e in enumerate(path.events)
+                if e.kind in ('call', 'enter') and e.depth == 0 and is_call_to(e, 'put')]
+        if path.normal and len(puts) != 1:
+            ok = False
+        for index, event in puts:
+            n_put += 1
+            node = event.node
+            ok &= rules.value_text(path, index, node.func.value) == mparams[1] and \
+                len(node.args) == 1 and \
+                rules.value_text(path, index, node.args[0]) == 'await %s' % mparams[0]
+    check.instance('first', '_first_monitor', ok and n_put > 0, where_fn(monitor),
+                   'awaits the contestant and puts exactly its result '
+                   '(%d puts on paths)' % n_put, analysed=len(mpaths))
     # aborting the rest: closing children iterates copies (a closed child removes itself)
     for name in ('_close_children', '_close_volatile'):
         fn = an.method(SCOPE, name)
